@@ -5,7 +5,8 @@
    /repo/src/halmos/{cheatcodes,console,sevm}.py on every run. *)
 From Coq Require Import ZArith NArith List Bool String.
 From HV Require Import Base.Keccak Base.SmtBV Gen.GenCheatSelectors Spec.FoundrySpec
-  Model.PrankModel Model.CheatModel Proofs.PrankProofs Proofs.CheatSelProofs Proofs.CheatProofs.
+  Gen.GenCopies Model.PrankModel Model.CheatModel Model.ForkModel
+  Proofs.PrankProofs Proofs.CheatSelProofs Proofs.CheatProofs Proofs.ForkProofs.
 Import ListNotations.
 Open Scope Z_scope.
 
@@ -166,6 +167,61 @@ Theorem C14_state_block :
      block_of w' = (mw_basefee w, mw_chainid w, mw_coinbase w, x, mw_number w, mw_timestamp w)).
 Proof. exact state_block. Qed.
 Print Assumptions C14_state_block.
+
+(* ------------------------------------------------------------------ ... on every path *)
+(* The theorems above are about one path.  halmos keeps the world of a path in mutable objects
+   (ex.block, ex.storage, ex.code; ex.balance is an immutable term) and at a symbolic branch
+   SEVM.create_branch derives the sibling's Exec, copying some fields and sharing others
+   (Gen/GenCopies.v create_branch_table, regenerated from sevm.py on every run).
+   Model/ForkModel.v gives objects identity: heaps of Block / storage / code objects, in-place
+   mutation through the Exec's references, the worklist order of SEVM.jumpi.
+
+   For EVERY program -- any tree of state cheatcodes, reads and symbolic two-sided branches,
+   nested to any depth -- from every initial world, the outputs of the paths of that run are
+   those of the value semantics spec_run, where both sides of a branch continue from the same
+   world VALUE: what one path sets, no sibling path reads. *)
+Theorem C14_fork_isolation :
+  forall t w, snd (run (init_heaps w) (init_exec w) t []) = spec_run w t [].
+Proof. exact fork_isolation_init. Qed.
+Print Assumptions C14_fork_isolation.
+
+(* the same from any heap and any Exec whose references are valid *)
+Theorem C14_fork_isolation_any_heap :
+  forall t h x, wfx h x -> snd (run h x t []) = spec_run (view h x) t [].
+Proof. exact fork_isolation. Qed.
+Print Assumptions C14_fork_isolation_any_heap.
+
+(* and the value semantics is "every path on its own": each output is the straight-line run
+   (lin_run: do_cheat and the reads of the theorems above, item after item) of a root-to-leaf
+   item sequence, and every root-to-leaf sequence is represented *)
+Theorem C14_fork_paths :
+  (forall t w acc out, In out (spec_run w t acc) -> exists p, In p (paths t) /\ out = acc ++ lin_run w p) /\
+  (forall t w acc p, In p (paths t) -> In (acc ++ lin_run w p) (spec_run w t acc)).
+Proof. exact (conj spec_run_sound spec_run_complete). Qed.
+Print Assumptions C14_fork_paths.
+
+(* the copies are what makes it true: for a create_branch with arbitrary copy kinds
+   (kb, ks, kc) for block / storage / code, isolation holds for every program EXACTLY when the
+   new Exec gets its own Block object, a deep copy of the storage and its own code dict *)
+Theorem C14_fork_isolation_iff :
+  forall kb ks kc,
+    (forall t w, snd (run_with kb ks kc (init_heaps w) (init_exec w) t []) = spec_run w t []) <->
+    copied kb && deep_copied ks && copied kc = true.
+Proof. exact fork_isolation_iff. Qed.
+Print Assumptions C14_fork_isolation_iff.
+
+Example C14_fork_nonvacuous :
+  (* vm.warp(100); vm.store(1,5,7); if (c) { if (d) { timestamp } else { vm.roll(4); number } ; sload }
+     else { vm.warp(300); vm.store(1,5,9); vm.etch(2, ..) ; timestamp } *)
+  let t := FItem (ICheat (Warp 100)) (FItem (ICheat (Store 1 5 7))
+             (FFork (FItem (ICheat (Warp 300)) (FItem (ICheat (Store 1 5 9)) (FItem (ICheat (Etch 2 [1; 2])) (FItem ITimestamp FEnd))))
+                    (FFork (FItem (ICheat (Roll 4)) (FItem INumber (FItem (ISload 1 5) FEnd)))
+                           (FItem ITimestamp (FItem INumber (FItem (ISload 1 5) (FItem (IExtcodesize 2) FEnd))))))) in
+  snd (run (init_heaps w0) (init_exec w0) t []) = [[1; 1; 1; 1; 1; 300]; [1; 1; 1; 4; 7]; [1; 1; 100; 0; 7; -1]] /\
+  (* with a shared Block object the last path would read the sibling's vm.warp(300) and vm.roll(4) *)
+  snd (run_with Share Deep Shallow (init_heaps w0) (init_exec w0) t []) =
+    [[1; 1; 1; 1; 1; 300]; [1; 1; 1; 4; 7]; [1; 1; 300; 4; 7; -1]].
+Proof. split; vm_compute; reflexivity. Qed.
 
 (* ------------------------------------------------------------------ created values *)
 (* createUint(n) / randomUint(n), every width 1..256: one fresh symbol, a 32-byte word that
